@@ -61,6 +61,20 @@ CAUGHT = {
     "C18-m4": ["C18 quick"], "C18-m5": ["C18 quick"],
     "C18-m6": ["C18 quick (after both sides were built with default arguments and an operator without static associativity was added)"],
     "C19-m4": ["C19 quick (after texts with letters outside ASCII were added)"], "C19-m5": ["C19 quick"], "C19-m6": ["C19 quick", "C07 quick"],
+    "C20-m4": ["C20 quick (after import paths were spelled with ./ and sub/../ segments)"], "C20-m5": ["C20 quick"],
+    "C20-m6": ["C20 quick (after the unit with actions bound by name in files imported up to three levels deep was added)"],
+    "C08-m7": ["C08 quick"], "C08-m8": ["C08 quick"],
+    "C08-m9": ["C14 quick (relayout of an earlier input on the same GLRParser); not C08 itself: the stale layout makes the inputs of its scope unparsable, and C08 judges trees"],
+    "C03-m7": ["C03 quick"], "C03-m8": ["C03 quick"],
+    "C03-m9": ["C03 quick (after lazy and non-lazy trees were also walked through the .children attribute)"],
+    "C17-m4": ["C17 quick"], "C17-m5": ["C17 quick (after the first trees of a prefix forest were checked as positioned objects: derivation of a prefix, root ends at its last token)"],
+    "C17-m6": ["C17 quick"],
+    "C06-m7": ["C06 quick (after operator texts one of which begins another were added -- and after the variant cycling was fixed to run over the whole family instead of per unit)"],
+    "C06-m8": ["C06 quick (after operators declared as terminals with lexical priorities were added)"],
+    "C06-m9": ["C06 quick (after priority numberings around the default 10 were added)"],
+    "C02-m7": ["C02 quick (after the juxtaposition family / corpus witness was added)"],
+    "C02-m8": ["C02 quick (after corpus grammars whose longer token swallows the trailing blank were added)"],
+    "C02-m9": ["C02 quick (corpus witnesses)", "C05 quick"],
     "C17-m1": ["C17 quick"], "C17-m2": ["C07 quick (scanner with consume_input=False); not C17 itself (its scope has no terminal priorities)"], "C17-m3": ["C17 quick"],
 }
 
